@@ -77,7 +77,8 @@ BadPointers == BadPointersAt(Paths \ excl)
 \* incl: the paths lfs.fetchinclude names (empty: not set).  git-lfs-fsck(1) leaves out what
 \* lfs.fetchexclude names and nothing else: the verdict has no use for incl.
 Fsck(flag, scope, incl) ==
-  /\ ~fdone /\ incl \in Includes /\ HeadCommit # NoCommit /\ flag \in FsckFlags /\ scope \in {"head", "tip", "tip2"}
+  \* (one of the two settings at a time is enough)
+  /\ ~fdone /\ incl \in Includes /\ (incl # {} => excl = {}) /\ HeadCommit # NoCommit /\ flag \in FsckFlags /\ scope \in {"head", "tip", "tip2"}
   /\ (scope # "head" => HasChain(scope) /\ flag = "objects" /\ excl = {})
   /\ LET chkObj == flag \in {"none", "objects", "dry-run"}
          chkPtr == flag \in {"none", "pointers", "dry-run"}
